@@ -29,6 +29,17 @@ pub enum Act {
     Anti,
     Neg,
     RoundTrip,
+    /// binary operator with another polynomial: op 0 +, 1 -, 2 *; form 0 owned.owned, 1 owned.&, 2 &.owned,
+    /// 3 &.&, 4 assign owned, 5 assign &; other = index into OTHERS (orders 0, 1, 3)
+    Bin(u8, u8, u8),
+    /// scalar operator that builds a new polynomial: op 0 +, 1 -, 2 *, 3 /; form 0 owned, 1 by reference
+    Sca(u8, u8, i32),
+    NegRef,
+}
+/// the other operand of Bin, ascending (complex field: multiplied by 1 + 0.5i)
+const OTHERS: [&[f64]; 3] = [&[2.0], &[-1.0, 1.0], &[0.5, 0.0, -1.0, 2.0]];
+fn other<N: Fld>(k: u8) -> Vec<C> {
+    OTHERS[k as usize].iter().map(|x| if N::COMPLEX { C::new(*x, 0.5 * x) } else { C::new(*x, 0.0) }).collect()
 }
 
 #[derive(Clone, Debug, Hash, PartialEq, Eq)]
@@ -69,6 +80,45 @@ fn apply_impl<N: Fld>(p: &mut Polynomial<N>, a: &Act) {
         Act::Anti => *p = p.antiderivative(r(1.0)),
         Act::Neg => *p = -p.clone(),
         Act::RoundTrip => *p = Polynomial::from_slice(&p.get_coefficients()),
+        Act::NegRef => *p = -&*p,
+        Act::Sca(op, form, s) => {
+            let s = r(*s as f64);
+            let q = p.clone();
+            *p = match (op, form) {
+                (0, 0) => q + s,
+                (0, _) => &q + s,
+                (1, 0) => q - s,
+                (1, _) => &q - s,
+                (2, 0) => q * s,
+                (2, _) => &q * s,
+                (_, 0) => q / s,
+                (_, _) => &q / s,
+            };
+        }
+        Act::Bin(op, form, k) => {
+            let b = build::<N>(&other::<N>(*k));
+            let a = p.clone();
+            *p = match (op, form) {
+                (0, 0) => a + b,
+                (0, 1) => a + &b,
+                (0, 2) => &a + b,
+                (0, 3) => &a + &b,
+                (0, 4) => { let mut a = a; a += b; a }
+                (0, _) => { let mut a = a; a += &b; a }
+                (1, 0) => a - b,
+                (1, 1) => a - &b,
+                (1, 2) => &a - b,
+                (1, 3) => &a - &b,
+                (1, 4) => { let mut a = a; a -= b; a }
+                (1, _) => { let mut a = a; a -= &b; a }
+                (_, 0) => a * b,
+                (_, 1) => a * &b,
+                (_, 2) => &a * b,
+                (_, 3) => &a * &b,
+                (_, 4) => { let mut a = a; a *= b; a }
+                (_, _) => { let mut a = a; a *= &b; a }
+            };
+        }
     }
 }
 /// Reference model: a coefficient map (Vec, ascending, implicit zeros above). Returns the expected map.
@@ -119,6 +169,33 @@ fn apply_ref<N: Fld>(c: &[C], a: &Act) -> Vec<C> {
         }
         Act::Neg => r.iter_mut().for_each(|x| *x = -*x),
         Act::RoundTrip => {}
+        Act::NegRef => r.iter_mut().for_each(|x| *x = -*x),
+        Act::Sca(op, _, s) => match op {
+            0 => r[0] += *s as f64,
+            1 => r[0] -= *s as f64,
+            2 => r.iter_mut().for_each(|x| *x *= *s as f64),
+            _ => r.iter_mut().for_each(|x| *x /= *s as f64),
+        },
+        Act::Bin(op, _, k) => {
+            let b = other::<N>(*k);
+            match op {
+                0 | 1 => {
+                    ext(&mut r, b.len());
+                    for (i, x) in b.iter().enumerate() {
+                        if *op == 0 { r[i] += x } else { r[i] -= x }
+                    }
+                }
+                _ => {
+                    let mut o = vec![z; r.len() + b.len() - 1];
+                    for (i, x) in r.iter().enumerate() {
+                        for (j, y) in b.iter().enumerate() {
+                            o[i + j] += x * y;
+                        }
+                    }
+                    r = o;
+                }
+            }
+        }
     }
     r
 }
@@ -164,6 +241,10 @@ struct Edit<N: Fld> {
     max_len: usize,
     /// explored to closure (no depth bound): depth is then not part of the key
     closure: bool,
+    /// number of actions per history (depth-bounded models): states reached by this many actions are judged
+    /// but not expanded. (stateright's own target_max_depth is not used: it skips the states at the bound
+    /// before evaluating the property on them, so the last layer of transitions would run unjudged.)
+    max_actions: u8,
     transitions: AtomicU64,
 }
 impl<N: Fld + Send + Sync> Model for Edit<N> {
@@ -173,7 +254,7 @@ impl<N: Fld + Send + Sync> Model for Edit<N> {
         self.inits.iter().map(|c| St { coeffs: c.iter().map(|x| (x.re.to_bits(), x.im.to_bits())).collect(), mismatch: None, depth: 0 }).collect()
     }
     fn actions(&self, s: &St, out: &mut Vec<Act>) {
-        if s.mismatch.is_none() {
+        if s.mismatch.is_none() && (self.closure || s.depth < self.max_actions) {
             out.extend(self.acts.iter().cloned());
         }
     }
@@ -213,7 +294,7 @@ pub struct EditPt {
     path: Option<(Vec<(f64, f64)>, Vec<Act>)>,
 }
 pub struct Editing;
-fn edit_model<N: Fld>(name: &str) -> Edit<N> {
+fn edit_model<N: Fld>(name: &str, max_actions: usize) -> Edit<N> {
     let mut acts = vec![];
     let inits;
     let max_len;
@@ -230,6 +311,34 @@ fn edit_model<N: Fld>(name: &str) -> Edit<N> {
             acts.push(Act::PurgeLeading);
             inits = vec![vec![C::new(0.0, 0.0)]];
             max_len = if N::COMPLEX { 4 } else { 5 };
+        }
+        "operator-forms" => {
+            // every ownership form of every polynomial/scalar operator, against operands of lower, equal and
+            // higher order than the receiver (products with the cubic go through the FFT and belong to C11)
+            for op in 0..3u8 {
+                for form in 0..6u8 {
+                    for k in 0..3u8 {
+                        if op == 2 && k == 2 {
+                            continue;
+                        }
+                        acts.push(Act::Bin(op, form, k));
+                    }
+                }
+            }
+            for op in 0..4u8 {
+                for form in 0..2u8 {
+                    acts.push(Act::Sca(op, form, 2));
+                }
+            }
+            acts.push(Act::NegRef);
+            for p in 0..=2u32 {
+                for v in [1usize, 2] {
+                    acts.push(Act::Set(p, v));
+                }
+            }
+            let r = |v: &[f64]| -> Vec<C> { v.iter().map(|x| C::new(*x, if N::COMPLEX && *x != 0.0 { -0.25 * x } else { 0.0 })).collect() };
+            inits = vec![r(&[0.0]), r(&[3.0]), r(&[1.0, 1.0]), r(&[-2.0, 0.0, 3.0]), r(&[1.0, 0.0, 0.5, 4.0]), r(&[0.5, -1.0, 0.25, 2.0, 3.0])];
+            max_len = 8;
         }
         _ => {
             for p in 0..=5u32 {
@@ -250,7 +359,7 @@ fn edit_model<N: Fld>(name: &str) -> Edit<N> {
             max_len = 8;
         }
     }
-    Edit { _n: std::marker::PhantomData, inits, acts, max_len, closure: name == "set-purge-closure", transitions: AtomicU64::new(0) }
+    Edit { _n: std::marker::PhantomData, inits, acts, max_len, closure: name == "set-purge-closure", max_actions: max_actions.min(250) as u8, transitions: AtomicU64::new(0) }
 }
 impl Check for Editing {
     type P = EditPt;
@@ -258,17 +367,19 @@ impl Check for Editing {
         "editing-histories"
     }
     fn rule(&self) -> String {
-        "stateright BFS over real Polynomial<f64> and Polynomial<Complex<f64>> values: (1) set/purge/purge_leading fragment explored to closure (powers 0..=4, purge 0..=6, 5 values incl. one below and one above the zero tolerance), (2) all 61 actions incl. scalar arithmetic, += x, -= x^2, derivative, antiderivative, negation, slice round trip, depth-bounded from 5 initial polynomials; every transition is a one-step conformance check of all observables against a coefficient-map reference; run with 16 threads and with 1 thread, counts must agree; signature = (model, unique states, depth)".into()
+        "stateright BFS over real Polynomial<f64> and Polynomial<Complex<f64>> values: (1) set/purge/purge_leading fragment explored to closure (powers 0..=4, purge 0..=6, 5 values incl. one below and one above the zero tolerance), (2) all 61 actions incl. scalar arithmetic, += x, -= x^2, derivative, antiderivative, negation, slice round trip, depth-bounded from 5 initial polynomials, (3) every ownership form (owned/borrowed on either side, assigning) of polynomial +, -, * against operands of order 0, 1, 3 and of the scalar operators, depth-bounded from 6 initial polynomials of order 0..4; every transition is a one-step conformance check of all observables against a coefficient-map reference; run with 16 threads and with 1 thread, counts must agree; signature = (model, unique states, depth)".into()
     }
     fn axes(&self, t: Tier) -> Value {
-        json!({"values": VALS, "zero_tolerance": TOL, "complex_values": format!("{:?}", CVALS), "models": [{"name":"set-purge-closure","depth":"closure","fields":"f64 and Complex<f64>"},{"name":"all-actions","depth_f64": t.pick(5,6), "depth_complex": t.pick(4,5)}], "boundary": "order <= 7, |coefficient| <= 64"})
+        json!({"values": VALS, "zero_tolerance": TOL, "complex_values": format!("{:?}", CVALS), "models": [{"name":"set-purge-closure","depth":"closure","fields":"f64 and Complex<f64>"},{"name":"all-actions","actions_per_history_f64": t.pick(4,5), "actions_per_history_complex": t.pick(3,4)},{"name":"operator-forms","actions_per_history": t.pick(2,3)}], "boundary": "order <= 7, |coefficient| <= 64"})
     }
     fn points(&self, t: Tier) -> Vec<EditPt> {
         vec![
             EditPt { model: "set-purge-closure".into(), depth: 64, complex: false, path: None },
-            EditPt { model: "all-actions".into(), depth: t.pick(5, 6), complex: false, path: None },
+            EditPt { model: "all-actions".into(), depth: t.pick(4, 5), complex: false, path: None },
             EditPt { model: "set-purge-closure".into(), depth: 64, complex: true, path: None },
-            EditPt { model: "all-actions".into(), depth: t.pick(4, 5), complex: true, path: None },
+            EditPt { model: "all-actions".into(), depth: t.pick(3, 4), complex: true, path: None },
+            EditPt { model: "operator-forms".into(), depth: t.pick(2, 3), complex: false, path: None },
+            EditPt { model: "operator-forms".into(), depth: t.pick(2, 3), complex: true, path: None },
         ]
     }
     fn run(&self, p: &EditPt) -> Outcome {
@@ -306,8 +417,8 @@ fn run_edit<N: Fld + Send + Sync>(p: &EditPt) -> Outcome {
     }
     let mut counts = vec![];
     for threads in [16usize, 1] {
-        let m = edit_model::<N>(&p.model);
-        let checker = m.checker().threads(threads).target_max_depth(p.depth).spawn_bfs().join();
+        let m = edit_model::<N>(&p.model, p.depth);
+        let checker = m.checker().threads(threads).spawn_bfs().join();
         let tr = checker.model().transitions.load(Ordering::Relaxed);
         counts.push((checker.unique_state_count(), checker.max_depth()));
         if threads == 16 {
